@@ -4,6 +4,7 @@ mod spec;
 mod p_kmer;
 mod p_min;
 mod p_posmaps;
+mod p_rows;
 mod util;
 
 use std::collections::HashMap;
@@ -86,6 +87,7 @@ fn main() {
         "c02" => p_kmer::c02(&o),
         "c09" => p_min::c09(&o),
         "c03" => p_posmaps::c03(&o),
+        "c04" => p_rows::c04(&o),
         "c18" => p_min::c18(&o),
         other => {
             eprintln!("unknown command {}", other);
